@@ -1,4 +1,4 @@
-import ComposeVerif.Model.EnvLayersLoad
+import ComposeVerif.Lemmas.EnvLayersLoad
 import ComposeVerif.Props.C16
 /-!
 # C16 — YAML `labels` through a whole load, the second caller `WithServicesEnabled`, re-resolution, error choice
@@ -10,14 +10,6 @@ open CV.EnvLayers.Spec
 
 /-! ## YAML labels -/
 
-theorem lookup_map_snd {β γ : Type} (g : β → γ) (k : Key) (m : List (Key × β)) :
-    lookup k (m.map fun kv => (kv.1, g kv.2)) = (lookup k m).map g := by
-  induction m with
-  | nil => rfl
-  | cons p r ih =>
-    obtain ⟨a, b⟩ := p
-    by_cases h : a = k <;> simp [lookup, h, ih]
-
 /-- **decodeLabels_last_wins.**  `Labels.DecodeMapstructure`: in the sequence form the last element naming `k` decides
     (`- k` gives the empty value), in the mapping form `k:` (null) is the empty value. -/
 theorem decodeLabels_last_wins (yl : YLabels) (k : Key) : lookup k (decodeLabels yl) = yamlLabel yl k := by
@@ -28,12 +20,6 @@ theorem decodeLabels_last_wins (yl : YLabels) (k : Key) : lookup k (decodeLabels
     show lookup k (overrideBy [] _) = _
     rw [lookup_overrideBy_nil, ← List.map_reverse, lookup_map_snd]
     rfl
-
-theorem distinct_decodeLabels (yl : YLabels) : Distinct (decodeLabels yl) := by
-  cases yl with
-  | absent => exact distinct_nil
-  | list items => exact distinct_overrideBy _ _ distinct_nil
-  | map kvs => exact distinct_overrideBy _ _ distinct_nil
 
 /-- the environment stage of a whole load never touches labels or label files (with or without `SkipResolveEnvironment`) -/
 theorem loadServiceEnv_keeps_labels (cfg : LoadCfg) (penv : List (Key × Str)) (fs : FS) (y : YEnv) (s s1 : Service)
@@ -100,37 +86,6 @@ theorem enabled_discards (penv : List (Key × Str)) (fs : FS) (n : Str) (ns : Li
     rw [← hres]
     rfl
 
-theorem loadEnvFiles_distinct (penv : List (Key × Str)) (fs : FS) (efs : List EnvFile) (acc res : List (Key × Str))
-    (hd : Distinct acc) (h : loadEnvFiles penv fs efs acc = .ok res) : Distinct res := by
-  induction efs generalizing acc with
-  | nil =>
-    simp only [loadEnvFiles, Except.ok.injEq] at h
-    exact h ▸ hd
-  | cons f r ih =>
-    simp only [loadEnvFiles] at h
-    cases hf : loadEnvFile fs f (envChain penv acc) with
-    | error e => rw [hf] at h; cases h
-    | ok vars =>
-      rw [hf] at h
-      exact ih _ (distinct_overrideBy _ _ hd) h
-
-/-- pointwise value of a resolved environment in terms of the accumulated files -/
-theorem lookup_resolved_env (penv acc : List (Key × Str)) (env : List (Key × Option Str)) (hd : Distinct env) (k : Key) :
-    lookup k (overrideBy (toMWE acc) (resolveMWE (fun n => lookup n penv) env)) =
-      match (lookup k env).map (rv penv k) with
-      | some v => some v
-      | none => (lookup k acc).map some := by
-  rw [lookup_overrideBy k _ _ (distinct_resolveMWE _ _ hd), lookup_resolveMWE_rv, lookup_toMWE]
-  cases Option.map (rv penv k) (lookup k env) <;> rfl
-
-theorem resolveServiceEnv_of_files (penv : List (Key × Str)) (fs : FS) (d : Bool) (s : Service) (acc : List (Key × Str))
-    (hl : loadEnvFiles penv fs s.envFiles [] = .ok acc) :
-    resolveServiceEnv penv fs d s = .ok { s with
-      environment := overrideBy (toMWE acc) (resolveMWE (fun k => lookup k penv) s.environment)
-      envFiles := if d then [] else s.envFiles } := by
-  unfold resolveServiceEnv
-  rw [hl]
-
 /-- **resolve_env_idempotent.**  Resolving the environment of an already resolved service again — what
     `WithServicesEnabled` does to a loaded project, with or without the file references still there — succeeds and
     changes no value: the `environment` layer already carries every file value and every project-environment value. -/
@@ -172,30 +127,122 @@ theorem resolve_env_idempotent (penv : List (Key × Str)) (fs : FS) (d d' : Bool
     | false =>
       exact ⟨_, resolveServiceEnv_of_files penv fs d' _ acc hl, fun k => key acc (fun _ => Or.inr rfl) k, rfl, rfl, rfl⟩
 
+/-! ## precedence for any registry of env_file formats -/
+
+/-- **env_precedence_any_format.**  No hypothesis on the outside world: whatever is registered with
+    `dotenv.RegisterFormat`, whatever the files contain — if environment resolution succeeds, the final environment is,
+    key by key, `environment` over the last env file whose parser returned the key, each file read with the lookup
+    "earlier files, then the project environment"; value-less entries from the project environment. -/
+theorem env_precedence_any_format (penv : List (Key × Str)) (fs : FS) (discard : Bool) (s s' : Service)
+    (hd : Distinct s.environment) (h : resolveServiceEnv penv fs discard s = .ok s') (k : Key) :
+    lookup k s'.environment = finalEnvG penv fs s.envFiles s.environment k := by
+  unfold resolveServiceEnv at h
+  cases hl : loadEnvFiles penv fs s.envFiles [] with
+  | error e => rw [hl] at h; cases h
+  | ok acc =>
+    rw [hl] at h
+    simp only [Except.ok.injEq] at h
+    subst h
+    have hacc := loadEnvFiles_specG penv fs s.envFiles [] acc hl k
+    simp only
+    rw [lookup_overrideBy k _ _ (distinct_resolveMWE _ _ hd), lookup_resolveMWE, lookup_toMWE, hacc]
+    unfold finalEnvG
+    cases lookup k s.environment with
+    | none => rfl
+    | some v => cases v <;> rfl
+
+/-- **finalEnvG_is_finalEnv.**  With the library's (empty) registry and well-formed files the format-agnostic layering is
+    the dotenv layering `finalEnv` wherever resolution succeeds. -/
+theorem finalEnvG_is_finalEnv (penv : List (Key × Str)) (fs : FS) (discard : Bool) (s s' : Service) (hwf : WFFS fs)
+    (hd : Distinct s.environment) (h : resolveServiceEnv penv fs discard s = .ok s') (k : Key) :
+    finalEnvG penv fs s.envFiles s.environment k = finalEnv penv (envContents fs s.envFiles) s.environment k :=
+  (env_precedence_any_format penv fs discard s s' hd h k).symm.trans (env_precedence penv fs discard s s' hwf hd h k)
+
+/-- **registered_layer_precedence.**  A file with a registered format is a layer like any other: the value its parser
+    returns for `k` wins over every earlier file and loses to `environment`. -/
+theorem registered_layer_precedence (penv : List (Key × Str)) (fs : FS) (discard : Bool) (s s' : Service)
+    (pre : List EnvFile) (f : EnvFile) (hd : Distinct s.environment) (hs : s.envFiles = pre ++ [f])
+    (h : resolveServiceEnv penv fs discard s = .ok s') (k : Key) (v : Str)
+    (hv : layerVal fs f (envLook penv (filesValGFrom penv fs (fun _ => none) pre.reverse)) k = some v) :
+    lookup k s'.environment = match lookup k s.environment with
+      | some (some x) => some (some x)
+      | some none => some (lookup k penv)
+      | none => some (some v) := by
+  rw [env_precedence_any_format penv fs discard s s' hd h k]
+  unfold finalEnvG
+  rw [hs, List.reverse_append]
+  simp only [List.reverse_cons, List.reverse_nil, List.nil_append, List.singleton_append, filesValGFrom, hv]
+  cases lookup k s.environment with
+  | none => rfl
+  | some x => cases x <;> rfl
+
+/-! ## labels: any iteration order, through the `len(labels) == 0` test -/
+
+/-- **labels_any_iteration_order_full.**  Whatever order Go picks for every `range` inside
+    `WithServicesLabelsResolved` — the `OverrideBy` loops and `NewLabelsFromMappingWithEquals` — and whichever branch of the
+    `len(labels) == 0` test is taken: the run fails iff the list-order model fails, with the same error, and otherwise
+    the final `Labels` have the model's value at every key. -/
+theorem labels_any_iteration_order_full (fs : FS) (discard : Bool) (s : Service) (hd : Distinct s.labels)
+    (out : Except Err (List (Key × Str))) (h : ServiceLabelsRunFull fs s out) :
+    Agrees out ((resolveServiceLabels fs discard s).map (·.labels)) := by
+  obtain ⟨merged, hrun, hout⟩ := h
+  have hag := labels_any_iteration_order fs s hd merged hrun
+  have hfin : ∀ final, ServiceLabelsRun fs s (.ok final) → Distinct final := by
+    intro final ⟨r, _, hm⟩
+    cases r with
+    | error e => simp at hm
+    | ok acc =>
+      obtain ⟨fin, hro, he⟩ := hm
+      simp only [Except.ok.injEq] at he
+      subst he
+      obtain ⟨_, _, hl⟩ := hro
+      exact hl.1
+  unfold resolveServiceLabels
+  cases hl : loadLabelFiles fs s.labelFiles [] with
+  | error e =>
+    rw [hl] at hag
+    cases merged with
+    | ok final => exact hag.elim
+    | error e' =>
+      simp only at hout
+      subst hout
+      exact hag
+  | ok acc0 =>
+    rw [hl] at hag
+    cases merged with
+    | error e' => exact hag.elim
+    | ok final =>
+      have hme : MapEq final (overrideBy (toMWE acc0) (toMWE s.labels)) := hag
+      have hdf : Distinct final := hfin final hrun
+      have hdl : Distinct (overrideBy (toMWE acc0) (toMWE s.labels)) :=
+        distinct_overrideBy _ _ (distinct_toMWE _ (loadLabelFiles_distinct fs s.labelFiles [] acc0 distinct_nil hl))
+      simp only at hout
+      simp only [Except.map]
+      by_cases hemp : final.isEmpty = true
+      · rw [if_pos hemp] at hout
+        subst hout
+        have hf0 : final = [] := List.isEmpty_iff.1 hemp
+        have hL : overrideBy (toMWE acc0) (toMWE s.labels) = [] :=
+          eq_nil_of_lookup_none _ fun k => by rw [← hme k, hf0]; rfl
+        rw [hL]
+        exact MapEq.refl _
+      · rw [if_neg hemp] at hout
+        obtain ⟨res, hlist, hout⟩ := hout
+        subst hout
+        have hne : (overrideBy (toMWE acc0) (toMWE s.labels)).isEmpty = false := by
+          cases hL : overrideBy (toMWE acc0) (toMWE s.labels) with
+          | cons _ _ => rfl
+          | nil =>
+            exfalso
+            apply hemp
+            have : final = [] := eq_nil_of_lookup_none _ fun k => by rw [hme k, hL]; rfl
+            rw [this]; rfl
+        rw [hne]
+        intro k
+        show lookup k res = lookup k (ofMWE (overrideBy (toMWE acc0) (toMWE s.labels)))
+        rw [hlist.2 k, lookup_ofMWE k _ hdf, lookup_ofMWE k _ hdl, hme k]
+
 /-! ## which failing service is reported -/
-
-def errsOf {α : Type} (rs : List (Str × Except Err α)) : List Err :=
-  rs.filterMap fun p => match p.2 with | .error e => some e | .ok _ => none
-
-theorem firstErr_eq_head {α : Type} (rs : List (Str × Except Err α)) : firstErr rs = (errsOf rs).head? := by
-  induction rs with
-  | nil => rfl
-  | cons p r ih =>
-    obtain ⟨n, x⟩ := p
-    cases x with
-    | error e => simp [firstErr, errsOf]
-    | ok a =>
-      simp only [firstErr, ih, errsOf, List.filterMap_cons]
-
-theorem collect_eq {α : Type} (rs : List (Str × Except Err α)) :
-    (∃ r, collect rs = .ok r ∧ errsOf rs = []) ∨ (collect rs = .error (errsOf rs) ∧ errsOf rs ≠ []) := by
-  unfold collect
-  simp only
-  split
-  · rename_i h
-    exact Or.inl ⟨_, rfl, List.isEmpty_iff.1 h⟩
-  · rename_i h
-    exact Or.inr ⟨rfl, fun hn => h (List.isEmpty_iff.2 hn)⟩
 
 /-- **reported_error_is_first_failing.**  Go returns from the services loop at the first failing service of its map
     iteration order.  For every listing `rs'` of the services: the loop succeeds iff the model (`collect`) succeeds, and
@@ -266,6 +313,51 @@ def yl0 : YLabels := .list [.kv ['L'] ['1'], .bare ['B'], .kv ['L'] ['2'], .kv [
 
 example : (decodeLabels yl0) = [(['L'], ['2']), (['B'], []), (['D'], ['x', '=', 'y'])] := by decide
 example : yamlLabel (.map [(['B'], none), (['L'], some ['1'])]) ['B'] = some [] := by decide
+
+/-- a file system with the registered format `kv` (the harness's `c16kv` parser): file `k` is read by it — `A=$x` is taken
+    literally, the bare `C` is inherited from the lookup — after the dotenv file `e` -/
+def fsK : FS :=
+  { node := fun p =>
+      if p = ['k'] then some (.file [.assign ['A'] [.lit ['$', 'x']], .bare ['C'], .bare ['Z']])
+      else if p = ['e'] then some (.file [.assign ['A'] [.lit ['1']], .assign ['Z'] [.lit ['z']], .assign ['Y'] [.lit ['y']]])
+      else none
+    formats := fun n => if n = ['k', 'v'] then some kvParser else none }
+
+def sK : Service :=
+  { environment := [(['Y'], none)], envFiles := [⟨['e'], true, []⟩, ⟨['k'], true, ['k', 'v']⟩], labels := [], labelFiles := [] }
+
+/-- hypotheses of `env_precedence_any_format` / `registered_layer_precedence` hold with a registered format, and every layer
+    shows: `A` from the registered layer (over `e`), `C` inherited from the project environment, `Z` inherited from the
+    earlier file, `Y` value-less and unset over `e` -/
+example : Distinct sK.environment ∧
+    (resolveServiceEnv [(['C'], ['c'])] fsK false sK).map (fun s' =>
+      ([['A'], ['C'], ['Z'], ['Y']] : List Key).map fun k => lookup k s'.environment) =
+    .ok [some (some ['$', 'x']), some (some ['c']), some (some ['z']), some none] ∧
+    layerVal fsK ⟨['k'], true, ['k', 'v']⟩
+      (envLook [(['C'], ['c'])] (filesValGFrom [(['C'], ['c'])] fsK (fun _ => none) [⟨['e'], true, []⟩])) ['A'] = some ['$', 'x'] := by
+  decide
+
+/-- a run of `WithServicesLabelsResolved` in the sense of `ServiceLabelsRunFull`: no label file, labels `L`, `M` listed in
+    the other order at the end -/
+example : ServiceLabelsRunFull fsK { sK with labels := [(['L'], ['1']), (['M'], ['2'])] }
+    (.ok [(['M'], ['2']), (['L'], ['1'])]) := by
+  refine ⟨.ok [(['L'], some ['1']), (['M'], some ['2'])], ⟨.ok [], FilesRun.nil [], ?_⟩, ?_⟩
+  · exact ⟨_, ⟨_, List.Perm.refl _, by decide, fun _ => rfl⟩, rfl⟩
+  · refine ⟨_, ⟨by decide, fun k => ?_⟩, rfl⟩
+    show lookup k [(['M'], ['2']), (['L'], ['1'])] = lookup k [(['L'], ['1']), (['M'], ['2'])]
+    by_cases h1 : ['M'] = k
+    · subst h1; rfl
+    · by_cases h2 : ['L'] = k
+      · subst h2; rfl
+      · simp [lookup, h1, h2]
+
+/-- … and the empty branch: nothing anywhere ⇒ `Labels` stay as they were -/
+example : ServiceLabelsRunFull fsK sK (.ok []) :=
+  ⟨.ok [], ⟨.ok [], FilesRun.nil [], _, ⟨_, List.Perm.refl _, by decide, fun _ => rfl⟩, rfl⟩, rfl⟩
+
+/-- `resolve_env_idempotent` on the example: resolving the resolved service again changes nothing -/
+example : (resolveServiceEnv [(['C'], ['c'])] fsK false sK).bind (resolveServiceEnv [(['C'], ['c'])] fsK true) =
+    (resolveServiceEnv [(['C'], ['c'])] fsK true sK) := by decide
 
 /-- two failing services with different errors: either can be reported -/
 def twoFailing : List (Str × Except Err Unit) := [(['a'], .error .notFound), (['b'], .ok ()), (['c'], .error .parse)]
